@@ -1249,7 +1249,14 @@ class CompilerPassGatherCode(CompilerPass):
                 c = c.strip()
 
             if options.original_code_as_comment and line.node:
-                ori_line = original_code[line.node.lineno - 1]
+                source = original_code
+                root = line.node.root()
+                if root is not self.data.tree:
+                    # the line number of a library instruction refers to the library's text
+                    text = getattr(root, "file_bytes", None) or ""
+                    source = (text.decode() if isinstance(text, bytes) else text).splitlines()
+                lineno = line.node.lineno
+                ori_line = source[lineno - 1] if 0 < lineno <= len(source) else prev_comment
                 if prev_comment != ori_line:
                     c = c.ljust(just_width)
                     c += f" # {ori_line}"
